@@ -141,6 +141,69 @@ def _uses(body_nodes, name):
     return sum(1 for b in body_nodes for n in ast.walk(b) if isinstance(n, ast.Name) and n.id == name and isinstance(n.ctx, ast.Load))
 
 
+def _has_return(stmts):
+    return any(isinstance(x, ast.Return) for b in stmts for x in ast.walk(b))
+
+
+def _terminates(stmts):
+    if not stmts:
+        return False
+    last = stmts[-1]
+    if isinstance(last, (ast.Return, ast.Raise)):
+        return True
+    if isinstance(last, ast.If) and last.orelse:
+        return _terminates(last.body) and _terminates(last.orelse)
+    return False
+
+
+def _tailify(stmts, result):
+    """Rewrite a body whose ``return`` statements are all in tail position of if-chains into a body without
+    returns that assigns the value to ``result`` (early returns become if/else nesting).  None if not of that shape."""
+    out = []
+    for i, st in enumerate(stmts):
+        if isinstance(st, ast.Return):
+            out.append(ast.Assign(targets=[ast.Name(id=result, ctx=ast.Store())], value=st.value if st.value is not None else ast.Constant(None)))
+            return out
+        if isinstance(st, ast.If) and _has_return([st]):
+            body_t = _tailify(st.body, result)
+            if body_t is None:
+                return None
+            rest = stmts[i + 1:]
+            if st.orelse:
+                orelse_t = _tailify(st.orelse, result)
+                if orelse_t is None:
+                    return None
+                if _terminates(st.body) and _terminates(st.orelse):
+                    out.append(ast.If(test=st.test, body=body_t, orelse=orelse_t))
+                    return out
+                if _terminates(st.body) and not _has_return(st.orelse):
+                    rest_t = _tailify(rest, result)
+                    if rest_t is None:
+                        return None
+                    out.append(ast.If(test=st.test, body=body_t, orelse=list(st.orelse) + rest_t))
+                    return out
+                if _terminates(st.orelse) and not _has_return(st.body):
+                    rest_t = _tailify(rest, result)
+                    if rest_t is None:
+                        return None
+                    out.append(ast.If(test=st.test, body=list(st.body) + rest_t, orelse=orelse_t))
+                    return out
+                return None
+            if not _terminates(st.body):
+                return None
+            rest_t = _tailify(rest, result)
+            if rest_t is None:
+                return None
+            out.append(ast.If(test=st.test, body=body_t, orelse=rest_t or [ast.Pass()]))
+            return out
+        if _has_return([st]):
+            return None
+        out.append(st)
+    # fell off the end: implicit None
+    out.append(ast.Assign(targets=[ast.Name(id=result, ctx=ast.Store())], value=ast.Constant(None)))
+    return out
+
+
 class Normalizer:
     def __init__(self, rel, tree, const_env, foreign=None):
         self.rel = rel
@@ -172,6 +235,8 @@ class Normalizer:
         rets = [x for b in body for x in ast.walk(b) if isinstance(x, ast.Return)]
         if all(isinstance(b, (ast.Assign, ast.AugAssign, ast.Expr, ast.Return, ast.If, ast.For)) for b in body):
             if not rets or (len(rets) == 1 and rets[0] is body[-1]):
+                return "stmt"
+            if _tailify(body, "__probe") is not None:
                 return "stmt"
         return None
 
@@ -252,6 +317,48 @@ class Normalizer:
 
         return T().visit(node)
 
+    def _hoist_nested_helper_call(self, s, cls_name, taken):
+        """``x = f(helper(a)) - 1``  ->  ``__h = helper(a); x = f(__h) - 1`` when the helper is a statement helper, it is the
+        only call of that kind in the statement and everything else in the expression is side-effect free."""
+        if not isinstance(s, (ast.Assign, ast.Return, ast.Expr, ast.AugAssign)) or s.value is None:
+            return None
+        if isinstance(s.value, ast.Call) and self._resolve_helper(s.value, cls_name)[0] is not None:
+            return None  # already a whole right-hand side
+        cands = []
+        for x in ast.walk(s.value):
+            if isinstance(x, ast.Call):
+                h, _ = self._resolve_helper(x, cls_name)
+                if h is not None and self._helper_kind(h) == "stmt":
+                    cands.append(x)
+        if len(cands) != 1:
+            return None
+        call = cands[0]
+        # the rest of the expression must be pure, and the call may not sit under a short-circuit or conditional
+        for x in ast.walk(s.value):
+            if isinstance(x, (ast.BoolOp, ast.IfExp, ast.Lambda, ast.ListComp, ast.SetComp, ast.DictComp, ast.GeneratorExp)) and any(y is call for y in ast.walk(x)):
+                return None
+            if isinstance(x, ast.Call) and x is not call:
+                nm = x.func.attr if isinstance(x.func, ast.Attribute) else getattr(x.func, "id", "")
+                if nm not in PURE_CALLS:
+                    return None
+        k = 1
+        while f"__h{k}" in taken:
+            k += 1
+        tmp = f"__h{k}"
+        taken.add(tmp)
+        pre = ast.Assign(targets=[ast.Name(id=tmp, ctx=ast.Store())], value=call)
+        ast.copy_location(pre, s)
+
+        class R(ast.NodeTransformer):
+            def visit_Call(self, node):
+                if node is call:
+                    return ast.copy_location(ast.Name(id=tmp, ctx=ast.Load()), node)
+                return self.generic_visit(node)
+
+        s.value = R().visit(s.value)
+        ast.fix_missing_locations(pre)
+        return [pre, s]
+
     def _inline_stmt_calls(self, stmts, cls_name, taken, depth=0):
         out = []
         for s in stmts:
@@ -263,6 +370,10 @@ class Normalizer:
                 h_.body = self._inline_stmt_calls(h_.body, cls_name, taken, depth)
             call = None
             target = None
+            hoisted = self._hoist_nested_helper_call(s, cls_name, taken)
+            if hoisted is not None:
+                out.extend(self._inline_stmt_calls(hoisted, cls_name, taken, depth))
+                continue
             if isinstance(s, ast.Expr) and isinstance(s.value, ast.Call):
                 call = s.value
             elif isinstance(s, ast.Assign) and isinstance(s.value, ast.Call) and len(s.targets) == 1:
@@ -282,7 +393,16 @@ class Normalizer:
                     if ok:
                         new = copy.deepcopy(body)
                         ret = None
-                        if new and isinstance(new[-1], ast.Return):
+                        n_rets = sum(1 for b in new for x in ast.walk(b) if isinstance(x, ast.Return))
+                        if n_rets > 1 or (n_rets == 1 and not isinstance(new[-1], ast.Return)):
+                            k = 1
+                            while f"__ret{k}" in taken:
+                                k += 1
+                            rname = f"__ret{k}"
+                            taken.add(rname)
+                            new = _tailify(new, rname)
+                            ret = ast.Name(id=rname, ctx=ast.Load())
+                        elif new and isinstance(new[-1], ast.Return):
                             ret = new.pop().value
                         # rename helper locals that clash with the caller's
                         locs = {x.id for b in new for x in ast.walk(b) if isinstance(x, ast.Name) and isinstance(x.ctx, ast.Store)}
